@@ -136,7 +136,12 @@ func (r *Runner) end() {
 	_ = os.RemoveAll(r.Root)
 }
 
-func (r *Runner) dbDir() string    { return filepath.Join(r.Root, "db") }
+func (r *Runner) dbDir() string {
+	if r.C.Slash {
+		return filepath.Join(r.Root, "db") + string(filepath.Separator)
+	}
+	return filepath.Join(r.Root, "db")
+}
 func (r *Runner) mergeDir() string { return filepath.Join(r.Root, "db-merge") }
 
 func (r *Runner) options(c Config, dir string) kv.Options {
